@@ -113,6 +113,16 @@ FOCUS[7] = ("it shows only through an entry point or calling convention OTHER th
             "refuses, and when), and introspection that users rely on (inspect.signature of the class, repr, __pane_info__ fields, the ConvertError.tree "
             "attribute and str() of the error). Pick entry points that make sense for THIS property; each of your three changes must leave the everyday path "
             "correct and break one of these other ways in.")
+FOCUS[8] = ("it needs a RARE COINCIDENCE to show - assume the library is already being exercised by a randomised differential harness that builds random "
+            "types (all the supported kinds, nested a few levels), feeds them random member and near-member values through every public entry point, and "
+            "compares with a reference model; your change should be one such a harness is LEAST likely to stumble on, while still being something a real "
+            "user will eventually hit. Ideas: a value that coincides with a particular constant, size or threshold (lengths >= some N, ints beyond 2**53 or "
+            "2**63, negative zero / NaN / inf, strings with particular characters, whitespace, unicode case folding, surrogate or combining characters, "
+            "keys that are equal but not identical or have equal hashes, containers that are empty or have exactly one element or contain themselves / "
+            "repeated identical objects), a particular ORDER of things (fields declared in a certain order, union members in a certain order, classes "
+            "defined in a certain order, a type used first in one position and then another), identity vs equality of type objects or values, object "
+            "lifetime (a type garbage-collected and another created at the same address; weak references), recursion depth, or an option combination of "
+            "three or more features. Each of your three changes must need such a coincidence; say precisely in meta.json which one.")
 FOCUS[4] = ("it lives in the region of the library named below and shows only under a narrow circumstance that a real user could still hit "
             "(one pass or one direction only, one member of a family, a second call, an unusual but legal input or option combination). "
             "REGION for this task: {region}. All three changes must be made inside that region; read it closely first and look for behaviour that the "
